@@ -139,28 +139,7 @@ def run(ctx):
 
     with ctx.rule("C17.NEEDS", "slice_needs_transcoding truth table; BOM set = {UTF-16LE, UTF-16BE, UTF-8}", floor=2,
                   exhaustive=True, kind="TRUTH/TABLE") as r:
-        f = facts.fn(S + "::slice_needs_transcoding")
-        tail = H.tail_expr(f.hir)
-        atoms = ["self.config.encoding.is_some()", "self.config.bom_sniffing",
-                 "grep_searcher::searcher::slice_has_bom(slice)"]
-        ok, detail = H.equivalent(tail, atoms, lambda v: v[atoms[0]] or (v[atoms[1]] and v[atoms[2]]))
-        if ok:
-            r.ok("truth", "≡ encoding.is_some() ∨ (bom_sniffing ∧ slice_has_bom(slice)) (%s)" % detail, fn=f)
-        else:
-            r.bad("truth", "slice_needs_transcoding: %s" % detail, fn=f, construct="needs")
-        g = facts.fn("grep_searcher::searcher::slice_has_bom")
-        arrs = [x for x in H.find(g.hir, lambda x: x.get("k") == "array" and "exp" not in x and
-                                  all(H.strip(y).get("k") == "path" for y in x.get("xs", [])))]
-        names = set()
-        for a in arrs:
-            for x in a["xs"]:
-                names.add(H.canon(x).split("::")[-1])
-        fb = g.calls_to("encoding_rs::Encoding::for_bom")
-        if names == {"UTF_16LE", "UTF_16BE", "UTF_8"} and fb:
-            r.ok("bom-set", "BOM encodings = %s via Encoding::for_bom" % sorted(names), fn=g)
-        else:
-            r.bad("bom-set", "slice_has_bom accepts %s" % sorted(names), fn=g, construct="bom-set")
-
+        needs_rule(ctx, r)
     with ctx.rule("C17.CONFIG", "decoder configuration table", floor=5, kind="WIRE") as r:
         f = facts.fn(SB + "::build")
         eb = ExprBuilder(f)
@@ -244,3 +223,29 @@ def run(ctx):
                 r.bad("defaults", "searcher defaults changed: bom_sniffing=%s encoding=%s" % (bsv, show(ev)), fn=d, construct="defaults")
         else:
             r.bad("defaults", "anchor-missing: Config::default literal", fn=d)
+
+
+def needs_rule(ctx, r):
+    facts = ctx.facts
+    f = facts.fn(S + "::slice_needs_transcoding")
+    tail = H.tail_expr(f.hir)
+    atoms = ["self.config.encoding.is_some()", "self.config.bom_sniffing",
+             "grep_searcher::searcher::slice_has_bom(slice)"]
+    ok, detail = H.equivalent(tail, atoms, lambda v: v[atoms[0]] or (v[atoms[1]] and v[atoms[2]]))
+    if ok:
+        r.ok("truth", "≡ encoding.is_some() ∨ (bom_sniffing ∧ slice_has_bom(slice)) (%s)" % detail, fn=f)
+    else:
+        r.bad("truth", "slice_needs_transcoding: %s" % detail, fn=f, construct="needs")
+    g = facts.fn("grep_searcher::searcher::slice_has_bom")
+    arrs = [x for x in H.find(g.hir, lambda x: x.get("k") == "array" and "exp" not in x and
+                              all(H.strip(y).get("k") == "path" for y in x.get("xs", [])))]
+    names = set()
+    for a in arrs:
+        for x in a["xs"]:
+            names.add(H.canon(x).split("::")[-1])
+    fb = g.calls_to("encoding_rs::Encoding::for_bom")
+    if names == {"UTF_16LE", "UTF_16BE", "UTF_8"} and fb:
+        r.ok("bom-set", "BOM encodings = %s via Encoding::for_bom" % sorted(names), fn=g)
+    else:
+        r.bad("bom-set", "slice_has_bom accepts %s" % sorted(names), fn=g, construct="bom-set")
+
